@@ -808,3 +808,104 @@ def run_live(repo, lean_dir, keep=None):
                 failed.append(("?", p.stdout[-300:]))
     return {"status": "broken" if failed else ("partial" if unavailable else "checked"), "theorems": thms, "failed": failed,
             "failed_names": sorted({n for n, _ in failed}), "unavailable": unavailable, "definitions": {"check_event": text}}
+
+
+# ---- auth.Authenticator.can_do (C14): the role decision ----------------------------------------------------------------------------
+
+def run_can_do(repo, lean_dir):
+    """can_do translated to a Lean function of (enabled, the roles configured for the action or none, the token's effective roles) and
+    proved equal to the model's `canDo`.  `bool(A.intersection(B))` is `A.any B.contains`; the `target` branch (evaluate_target, only
+    reached with a target object) is outside the translated fragment — the relay's call sites pass a target only for the shipped no-op."""
+    unavailable, failed, text = [], [], ""
+    try:
+        tree = ast.parse(open(os.path.join(repo, "nostr_relay", "auth.py")).read())
+        fn = None
+        for n in ast.walk(tree):
+            if isinstance(n, ast.AsyncFunctionDef) and n.name == "can_do":
+                fn = n
+        if fn is None:
+            raise Unavailable("can_do is gone")
+        body = [s for s in fn.body if not (isinstance(s, ast.Expr) and isinstance(s.value, ast.Constant))]
+        if not (len(body) == 3 and isinstance(body[0], ast.Assign) and isinstance(body[0].value, ast.Constant)
+                and isinstance(body[0].value.value, bool) and isinstance(body[2], ast.Return) and isinstance(body[2].value, ast.Name)
+                and body[2].value.id == body[0].targets[0].id and isinstance(body[1], ast.If)):
+            raise Unavailable("not `r = <bool>; if …; return r`")
+        var, init = body[0].targets[0].id, body[0].value.value
+
+        def cond(t):
+            neg = False
+            if isinstance(t, ast.UnaryOp) and isinstance(t.op, ast.Not):
+                neg, t = True, t.operand
+            if isinstance(t, ast.Attribute) and isinstance(t.value, ast.Name) and t.value.id == "self" and t.attr == "is_enabled":
+                return "enabled", neg
+            if isinstance(t, ast.Compare) and isinstance(t.ops[0], (ast.In, ast.NotIn)) and isinstance(t.left, ast.Name) and t.left.id == "action" \
+                    and isinstance(t.comparators[0], ast.Attribute) and t.comparators[0].attr == "actions":
+                return "configured", neg != isinstance(t.ops[0], ast.NotIn)
+            raise Unavailable("condition " + ast.dump(t)[:60])
+
+        def value(e):
+            """the expression assigned to the result"""
+            neg = False
+            if isinstance(e, ast.UnaryOp) and isinstance(e.op, ast.Not):
+                neg, e = True, e.operand
+            if isinstance(e, ast.Constant) and isinstance(e.value, bool):
+                return ("true" if e.value != neg else "false")
+            if isinstance(e, ast.Call) and isinstance(e.func, ast.Name) and e.func.id == "bool" and len(e.args) == 1:
+                e = e.args[0]
+            if isinstance(e, ast.Call) and isinstance(e.func, ast.Attribute) and e.func.attr in ("intersection", "isdisjoint") \
+                    and _is(e.func.value, "self.actions[action]") and _is(e.args[0], 'auth_token.get("roles", self.default_roles)'):
+                inner = "(rs.any tokenRoles.contains)"
+                if e.func.attr == "isdisjoint":
+                    neg = not neg
+                return "(!%s)" % inner if neg else inner
+            raise Unavailable("assigned value " + ast.dump(e)[:80])
+
+        def block(stmts, cur, in_configured):
+            """Lean Bool for the result variable after `stmts`, `cur` = its value before"""
+            for st in stmts:
+                if isinstance(st, ast.Assign) and isinstance(st.targets[0], ast.Name) and st.targets[0].id == "auth_token":
+                    continue                                    # `auth_token = auth_token or {}`: the token's roles default (an atom of the model)
+                if isinstance(st, ast.Assign) and isinstance(st.targets[0], ast.Name) and st.targets[0].id == var:
+                    if not in_configured and "rs" in value(st.value):
+                        raise Unavailable("role test outside the `action in self.actions` branch")
+                    cur = value(st.value)
+                    continue
+                if isinstance(st, ast.If):
+                    # `if can_do and target:` — only with a target object
+                    if isinstance(st.test, ast.BoolOp) and any(isinstance(v, ast.Name) and v.id == "target" for v in st.test.values):
+                        continue
+                    what, neg = cond(st.test)
+                    then = block(st.body, cur, in_configured or (what == "configured" and not neg))
+                    other = block(st.orelse, cur, in_configured or (what == "configured" and neg))
+                    if what == "enabled":
+                        cur = "(if %senabled then %s else %s)" % ("!" if neg else "", then, other)
+                    else:
+                        a, b = (other, then) if neg else (then, other)
+                        cur = "(match actionRoles with | some rs => %s | none => %s)" % (a, b.replace("rs.any", "([] : List Char).any"))
+                    continue
+                raise Unavailable("statement " + type(st).__name__)
+            return cur
+        res = block([body[1]], "true" if init else "false", False)
+        text = "\n".join(["import NostrRelay.Model.Admission", "open NostrRelay NostrRelay.Admission", "set_option linter.unusedVariables false",
+                          "/-! generated from /repo/nostr_relay/auth.py (Authenticator.can_do) — do not edit -/",
+                          "def XC.canDo (enabled : Bool) (actionRoles : Option (List Char)) (tokenRoles : List Char) : Bool := " + res, "",
+                          "theorem tie_can_do (enabled : Bool) (actionRoles : Option (List Char)) (tokenRoles : List Char) :",
+                          "    XC.canDo enabled actionRoles tokenRoles = canDo enabled actionRoles tokenRoles := by",
+                          "  unfold XC.canDo canDo", "  cases enabled <;> cases actionRoles <;> simp", ""])
+    except Unavailable as ex:
+        unavailable.append(("can_do", str(ex)))
+    except Exception as ex:
+        unavailable.append(("can_do", "%s: %s" % (type(ex).__name__, ex)))
+    if text:
+        d = tempfile.mkdtemp(prefix="tiec-")
+        path = os.path.join(d, "TieCanDo.lean")
+        open(path, "w").write(text)
+        try:
+            p = subprocess.run(["lake", "env", "lean", path], cwd=lean_dir, stdout=subprocess.PIPE, stderr=subprocess.STDOUT, text=True,
+                               timeout=600)
+        finally:
+            shutil.rmtree(d, ignore_errors=True)
+        if p.returncode != 0 or ": error" in p.stdout:
+            failed.append(("tie_can_do", p.stdout.strip()[-300:]))
+    return {"status": "broken" if failed else ("partial" if unavailable else "checked"), "theorems": ["tie_can_do"] if text else [],
+            "failed": failed, "failed_names": sorted({n for n, _ in failed}), "unavailable": unavailable, "definitions": {"can_do": text}}
